@@ -534,3 +534,29 @@ Example C02_fn_guard_boundary :
   fn_guard [(w_x, FVariants [])] [] None fresh_cur [(w_p, None)] [TFloat] relabel_body = false.
 Proof. exact fn_guard_boundary. Qed.
 Print Assumptions C02_fn_guard_boundary.
+
+(* ---------------------------------------------------------------- tuple assignment
+   STuple xs es = x1, x2, ... = e1, e2, ...  (Lang/Decl.v do_tuple: at column 0 with every target new the names become globals
+   directly; otherwise every value goes through a temporary `__tmp_assign_k`, recorded under [tmp_marker] in the label list).
+   It is one more statement of the covering theorems above; its temporaries are typed like their targets: *)
+Theorem C02_tuple_temporaries_typed_partial :
+  forall (S : Type) call C F A (Inv : S -> Prop),
+    (forall d sp G f sg, Inv (fst sp) ->
+       Inv (fst (fst (call d sp G f sg))) /\ snd (call d sp G f sg) = resolve_call F A f sg) ->
+    forall L s st xs es s1 st1,
+      Inv s -> gd_stmt S call C F A L s st (STuple xs es) = true ->
+      run_stmt S call C s st (STuple xs es) = Some (s1, st1) ->
+      exists ts, a_labels (st_acc st1) = a_labels (st_acc st) ++ map (fun t => (tmp_marker, t)) ts ++ combine xs ts /\
+                 Forall2 (fun x t => tlookup x L = Some t) xs ts.
+Proof. exact tuple_temporaries_typed. Qed.
+Print Assumptions C02_tuple_temporaries_typed_partial.
+
+(* a, b = 1, 2.5 ; a, x = a + 1, b * 2 ; while ..: b, x = x, b *)
+Example C02_tuple_nonvacuous :
+  script_guard None demo_tuple_pre BNil = true /\
+  (exists ps, run_items None (script_items demo_tuple_pre BNil) = Some ps /\
+              p_globals ps = [(w_a, CInt); (w_b, CFloat); (w_x, CFloat)] /\
+              map snd (filter (fun xt => text_eqb (fst xt) tmp_marker) (p_labels ps)) = [TInt; TFloat; TFloat; TFloat]) /\
+  (exists rho tr, exec_prog [1]%nat demo_tuple_pre BNil = Ok ([], rho, tr, false) /\ In (TAssign w_b (VFloat 5)) tr).
+Proof. exact demo_tuple_nonvacuous. Qed.
+Print Assumptions C02_tuple_nonvacuous.
